@@ -65,11 +65,8 @@ class RotationLink(LinkBase):
         prev_radius = self.orig_leader_radius
         this_radius = self._get_radius(self.leader)
 
-        angle = f.angle_between(prev_radius, this_radius)
-
-        cross_rad = np.cross(prev_radius, this_radius)
-        if np.dot(cross_rad, self.axis) < 0:
-            angle = -angle
+        # (signed, and accurate for tiny turns and near half a turn, where arccos of a dot product is not)
+        angle = np.arctan2(np.dot(np.cross(prev_radius, this_radius), self.axis), np.dot(prev_radius, this_radius))
 
         return f.rotate(self.orig_follower_pos, angle, self.axis, self.origin)
 
